@@ -49,6 +49,8 @@ def run(ctx):
     ctx.rule("A2", "store discipline in anonymize_operation: no whole-place store to .action / .key / .obj / .insert; .pred is rebuilt by map only")
     ctx.rule("A3", "anonymize: no resizing call on the change list or an op list, no filtering adaptor between a list and its consumer, apply_changes on every iteration, deps mapped with ok_or(error)")
     ctx.rule("A4", "map_op_id / map_object_id store only into the actor part of an id")
+    ctx.rule("A5", "actor_map: the rank of an actor is written into the replacement id with to_be_bytes (byte-wise order of the new ids = order of the old ones, for any number of actors)")
+    ctx.rule("A6", "anonymize_content_string: a one-byte synthetic replacement is used only on the true edge of char::is_ascii (a replacement keeps the UTF-8 width of the character)")
     f = ctx.facts()
     # ---------------- A1
     sb = ctx.body(SCALAR)
@@ -189,3 +191,34 @@ def run(ctx):
             ctx.ob("A4", "%s|store to %s" % (fn, "".join(path) or "the whole id"), ok, sp, "actor part" if ok else "an id's counter (or the whole id) is rewritten: ops no longer line up with their predecessors / elements")
         if fn == "map_op_id":
             ctx.floor("stores in map_op_id", n, 1)
+
+    # ---------------- A5
+    AMAP = AN + "Anonymization::actor_map"
+    bodies = [ctx.body(AMAP)] + [cfg.body(r) for r in f.closures_of(AMAP)]
+    ctx.analysed_fns.add(AMAP)
+    conv = []
+    for bd in bodies:
+        for bi, t in bd.calls():
+            last = (norm_fn(t.get("fn")) or "").split("::")[-1]
+            if last in ("to_be_bytes", "to_le_bytes", "to_ne_bytes"):
+                conv.append((last, t["sp"]))
+    ctx.floor("integer-to-bytes conversions in actor_map", len(conv), 1)
+    for k, (last, sp) in util.ordinal_keys(conv, lambda it: "actor_map|rank bytes"):
+        ctx.ob("A5", k, last == "to_be_bytes", sp, "big-endian: byte-wise order equals numeric order" if last == "to_be_bytes" else
+               "the rank is written with %s: replacement actor ids sort like the originals only while the rank fits one byte, so with more than 256 actors conflict winners and sibling order change" % last)
+    # ---------------- A6
+    CS = AN + "Anonymization::anonymize_content_string"
+    cb = ctx.body(CS)
+    ctx.analysed_fns.add(CS)
+    ascii_true = []
+    for sb, sw in cb.switches():
+        src = cb.bool_operand_source(sw["op"])
+        if src and src["kind"] == "call" and (norm_fn(src["callee"]) or "").split("::")[-1] == "is_ascii" and "char" in (norm_fn(src["callee"]) or ""):
+            zero = [tb for v, tb in sw["targets"] if v == "0"]
+            ascii_true += [(sb, zero[0])] if src["negated"] and zero else ([] if src["negated"] else [(sb, sw["otherwise"])])
+    syn = [(bi, t) for bi, t in cb.calls() if (callee(t) or "").endswith("Anonymization::random_synthetic_byte")]
+    ctx.floor("synthetic one-byte replacements in anonymize_content_string", len(syn), 1)
+    for k, (bi, t) in util.ordinal_keys(syn, lambda it: "anonymize_content_string|one-byte replacement"):
+        ok = bool(ascii_true) and cb.edges_dominate(ascii_true, bi)
+        ctx.ob("A6", k, ok, t["sp"], "only for ASCII characters" if ok else
+               "a character that is not known to be ASCII is replaced by a one-byte character: the replacement string is narrower in UTF-8 than the original (text widths and value lengths change)")
